@@ -84,7 +84,7 @@ def gen_fraction_term(rng, with_num=True, with_den=True):
             continue
         br = bracket(rng, io, iv, n)
         brackets.append(br)
-        den *= br ** rng.choice([1, 1, 1, 2])
+        den *= br ** rng.choice([1, 1, 1, 2, 3])
     num = 1
     if with_num and io and iv and rng.random() < 0.8:
         n = min(rng.choice([1, 2, 3]), len(io), len(iv))
